@@ -2,5 +2,12 @@
 EXTENDS XlEvalMachine
 \* for the variant without an effective cycle check the stack grows without bound: cut the exploration
 CutDeep == Len(stack) <= Cardinality(Cells) + 2
+\* refinement: the machine with the path discipline is an instance of the skeleton XlEvalPath, whose invariant
+\* Apalache proves inductive for all graphs on 8 cells (cfg C06_refines_path)
+PathEdges == {e \in Cells \X Cells : Edge(e[1], e[2])}
+PathStack == [i \in 1..Len(stack) |-> stack[i].cell]
+P == INSTANCE XlEvalPath WITH N <- Cardinality(Cells), PathCheck <- TRUE, edges <- PathEdges, stack <- PathStack
+RefinesPath == P!Spec
+PathInv == P!IndInv
 DoneView == <<refs, fail, entry, outcome, val>>
 =============================================================================
